@@ -19,7 +19,10 @@ for d in sorted(glob.glob('/verif/seeded/*/')):
     if len(summ)>170: summ=summ[:167]+'...'
     needs=(m.get('needs_to_manifest') or '').replace('|','/').replace('\n',' ')
     if len(needs)>150: needs=needs[:147]+'...'
-    rows.append((sid,m.get('property',''),summ,needs,'; '.join(res) or 'not run yet',', '.join(sigs)))
+    why=m.get('not_reported_because')
+    resl='; '.join(res) or 'not run yet'
+    if why: resl+=' - '+why.replace('|','/')
+    rows.append((sid,m.get('property',''),summ,needs,resl,', '.join(sigs)))
 out=["## 14. Detection results: seeded changes and which checks report them\n",
 "Every change below compiles, passes the repository's 54 tests (re-run in a scratch worktree by",
 "`tools/verify_seeded.sh`), and - for the `Cxx-mK` rows - comes with a demonstration that fails with the",
